@@ -193,6 +193,11 @@ def case_reduce(ctx, inp):
         if (flat and got != _ok(max(flat))) or (not flat and got[0] != "raised"):
             ctx.fail("max differs from max(seq) (ValueError when empty)", observed=got)
         gmin = run(lambda: b.min(split_every=se).compute(scheduler="sync"))
+        ctx.eq("Bag.min", ctx.lean(Sym("min"), see, parts), gmin)
+        bools = [[1 if x > 0 else 0 for x in p] for p in parts]
+        bb = mk_bag([[bool(x) for x in p] for p in bools])
+        ctx.eq("Bag.any/all", ctx.lean(Sym("anyall"), see, bools),
+               [bool(bb.any(split_every=se).compute(scheduler="sync")), bool(bb.all(split_every=se).compute(scheduler="sync"))])
         if (flat and gmin != _ok(min(flat))) or (not flat and gmin[0] != "raised"):
             ctx.fail("min differs from min(seq)", observed=gmin)
     elif kind == "topk":
@@ -772,12 +777,12 @@ def generate(ctx):
 
 
 LEVEL_TEXT = (
-    "Lean theorems (56): invariant principle for Bag.reduction (any split_every >= 2, any partitioning incl. empty partitions) with "
-    "fold, sum, count, max, topk, frequencies, distinct as instances; foldby (dicts as association lists); staged task shuffle: every "
+    "Lean theorems (60+): invariant principle for Bag.reduction (any split_every >= 2, any partitioning incl. empty partitions) with "
+    "fold (with and without initial), sum, count, max, min, any, all, topk, frequencies, distinct as instances; foldby (dicts as association lists); staged task shuffle: every "
     "element ends in partition hash mod k^stages, each stage is a permutation (multiset preserved), each key in exactly one partition "
     "with exactly its elements; disk shuffle placement; accumulate = itertools.accumulate for every binop; take; repartition keeps the "
     "sequence and yields exactly the requested number of partitions (for any cut points); product (multiset), zip, concat, join, "
-    "map/filter/remove/flatten/pluck/starmap. Validated only: mean/var/std/any/all/min, from_sequence sizes, optimize/lazify, partd.")
+    "map/filter/remove/flatten/pluck/starmap. Validated only: mean/var/std, from_sequence sizes, optimize/lazify, partd.")
 LEVEL_NOTE = (
     "Trusted: Lean kernel + standard axioms; the correspondence harness; toolz kernels on one partition; partd; tokenize as the "
     "hash of groupby keys; bag optimize/lazify and map/filter/pluck glue are covered by the API-level differential check only.")
